@@ -1,6 +1,7 @@
 // C05/C06 kernel: real sequence objects, real sequence_handler<1|2> with real sequence_matcher handles,
-// arbitrary counters.  VF_N handles registered in order in sequence A; with VF_K==2 every handle is also
-// registered in sequence B in REVERSE order (so positions differ between the sequences).
+// arbitrary counters.  VF_N handles registered in order in sequence A; with VF_K==2 every handle EXCEPT the first is
+// also registered in sequence B (so a handle's position, hence its cost, differs between its two sequences: i in A, i-1
+// in B); VF_ORD says which sequence such a handle names first (0: A then B, 1: B then A).
 // VF_GONE = bitmask of handles that have left sequence A before the step (retire()).
 // Units: sequence_type::cost/is_first/is_completed/retire_until/add_last/~sequence_type,
 //        sequence_matcher::cost/retire/retire_predecessors/is_satisfied/is_optional,
@@ -22,7 +23,12 @@
 #define VF_PICK 0
 #endif
 using trompeloeil::sequence_matcher;
-using H = trompeloeil::sequence_handler<VF_K>;
+using H1 = trompeloeil::sequence_handler<1>;
+using H2 = trompeloeil::sequence_handler<2>;
+using HB = trompeloeil::sequence_handler_base;
+#ifndef VF_ORD
+#define VF_ORD 0
+#endif
 
 static bool listedA(int i, unsigned gone) { return !(gone & (1u << i)); }
 
@@ -33,7 +39,7 @@ extern "C" void harness(void)
   trompeloeil::sequence_handler<0> base;
   static char const *names[4] = {"e0", "e1", "e2", "e3"};
   size_t L[4], Hi[4], c[4];
-  H *h[4] = {nullptr, nullptr, nullptr, nullptr};
+  HB *h[4] = {nullptr, nullptr, nullptr, nullptr};
   for (int i = 0; i < VF_N; ++i)
   {
     L[i] = verif_nondet_ulong(); Hi[i] = verif_nondet_ulong(); c[i] = verif_nondet_ulong();
@@ -41,29 +47,24 @@ extern "C" void harness(void)
   }
   for (int i = 0; i < VF_N; ++i)
   {
-#if VF_K == 1
-    h[i] = new H(base, names[i], trompeloeil::location{"file", (unsigned long)(10 + i)}, sequence_matcher::init_type{"A", *A});
-#endif
+    trompeloeil::location loc{"file", (unsigned long)(10 + i)};
+    if (VF_K == 1 || i == 0)
+      h[i] = new H1(base, names[i], loc, sequence_matcher::init_type{"A", *A});
+    else if (VF_ORD == 0)
+      h[i] = new H2(base, names[i], loc, sequence_matcher::init_type{"A", *A}, sequence_matcher::init_type{"B", B});
+    else
+      h[i] = new H2(base, names[i], loc, sequence_matcher::init_type{"B", B}, sequence_matcher::init_type{"A", *A});
   }
-#if VF_K == 2
-  // B gets the handles in reverse registration order: construct handlers from last to first for B ... not possible with
-  // one constructor call per handler (both registrations happen in it), so build in reverse and register A reversed too:
-  for (int i = VF_N - 1; i >= 0; --i)
-    h[i] = new H(base, names[i], trompeloeil::location{"file", (unsigned long)(10 + i)}, sequence_matcher::init_type{"B", B}, sequence_matcher::init_type{"A", *A});
-  // => in A and in B the order is h[N-1], ..., h[0]; renumber so that index == position in A
-  for (int i = 0; i < VF_N / 2; ++i) { H *t = h[i]; h[i] = h[VF_N - 1 - i]; h[VF_N - 1 - i] = t; }
-#endif
   for (int i = 0; i < VF_N; ++i) vf_poke(*h[i], L[i], Hi[i], c[i]);
   unsigned gone = VF_GONE;
+  // a handle that is "gone" has left all of its sequences (retired by a successor's match, or saturated)
   for (int i = 0; i < VF_N; ++i)
-    if (!listedA(i, gone))
-    {
-#if VF_K == 1
-      h[i]->matchers.matchers[0].retire();
-#else
-      h[i]->matchers.matchers[1].retire();   // leaves A only, stays in B
-#endif
-    }
+    if (!listedA(i, gone)) h[i]->retire();
+  // is handle i's link into sequence A still in place?
+  auto linkedA = [&](int i) -> bool {
+    if (VF_K == 1 || i == 0) return static_cast<H1 *>(h[i])->matchers.matchers[0].is_linked();
+    return static_cast<H2 *>(h[i])->matchers.matchers[VF_ORD == 0 ? 0 : 1].is_linked();
+  };
   auto sat = [&](int i) { return c[i] >= L[i]; };
   // reference cost in A: position among listed handles if all listed predecessors satisfied, else ~0U; ~0U if not listed
   auto refcostA = [&](int i, unsigned g) -> unsigned {
@@ -80,15 +81,19 @@ extern "C" void harness(void)
     {
       unsigned want = refcostA(i, g);
 #if VF_K == 2
-      // in B all handles are listed, same order as in A
-      unsigned wb = 0; bool blocked = false;
-      for (int j = 0; j < i; ++j) { if (!sat(j)) blocked = true; ++wb; }
-      if (blocked) wb = ~0U;
-      want = want > wb ? want : wb;
+      if (i >= 1)
+      {
+        // B lists handles 1..N-1 (those not gone), same relative order
+        unsigned wb = 0; bool blocked = !listedA(i, g);
+        for (int j = 1; j < i; ++j) if (listedA(j, g)) { if (!sat(j)) blocked = true; ++wb; }
+        if (blocked) wb = ~0U;
+        want = want > wb ? want : wb;
+      }
 #endif
       VCLAIM(5, h[i]->order() == want, "C05.order_is_max_cost_over_sequences");
       VCLAIM(2, h[i]->order() == want, "C02.cost_is_the_largest_over_the_named_sequences");
       VCLAIM(5, h[i]->can_be_called() == (want != ~0U), "C05.eligible_iff_all_pending_predecessors_satisfied");
+      VCLAIM(1, h[i]->can_be_called() == (want != ~0U), "C01.permitted_by_its_sequences_iff_pending_predecessors_satisfied");
     }
     (void)tag;
   };
@@ -97,16 +102,12 @@ extern "C" void harness(void)
   h[VF_PICK]->retire_predecessors();
   if (listedA(VF_PICK, gone)) for (int j = 0; j < VF_PICK; ++j) gone |= 1u << j;
   else gone = (1u << VF_N) - 1;            // retire_until of an unlisted handle empties the sequence
-  #if VF_K == 1
-  check_all(gone, "post");
-  #endif
-  VCLAIM(5, !listedA(VF_PICK, VF_GONE) || h[VF_PICK]->order() == 0 || VF_K == 2, "C05.picked_is_first_after_retire_predecessors");
+  if (VF_K == 1 || listedA(VF_PICK, VF_GONE)) check_all(gone, "post");
+  VCLAIM(5, !listedA(VF_PICK, VF_GONE) || h[VF_PICK]->order() == 0, "C05.picked_is_first_after_retire_predecessors");
 #elif VF_OP == 2
   h[VF_PICK]->retire();
   gone |= 1u << VF_PICK;
-  #if VF_K == 1
   check_all(gone, "post");
-  #endif
 #elif VF_OP == 3
   {
     unsigned need[4];
@@ -128,11 +129,7 @@ extern "C" void harness(void)
     // the handles survive their sequence and are detached
     for (int i = 0; i < VF_N; ++i)
     {
-  #if VF_K == 1
-      VCLAIM(6, !h[i]->matchers.matchers[0].is_linked(), "C06.teardown_detaches_handles");
-  #else
-      VCLAIM(6, !h[i]->matchers.matchers[1].is_linked(), "C06.teardown_detaches_handles");
-  #endif
+      VCLAIM(6, !linkedA(i), "C06.teardown_detaches_handles");
     }
   }
 #elif VF_OP == 4
